@@ -283,12 +283,9 @@ func (c07) Exec(sc *sim.Scenario, env *sim.Env) *sim.Violation {
 				steps++
 				st.SimCycles += uint64(cyc)
 				if p {
-					msg := sim.PanicString(pv)
-					if isIndexPanic(msg) {
-						st.Abort("ea_overflow")
-						goto nextCPU
-					}
-					return &sim.Violation{Oracle: "step_panic", Step: ei, Msg: fmt.Sprintf("%s: Step at %06x (%s) panicked: %s", cpu.Kind(), ev.pc, ev.op, msg)}
+					_ = pv // a crashing Step is C08's business
+					st.Abort("step_panic")
+					goto nextCPU
 				}
 				if !isMVN || cpu.Regs().PCL() != ev.pc || steps > 300000 {
 					break
